@@ -459,7 +459,12 @@ impl Report {
         let mut vacuous = Vec::new();
         for k in &g.must_reach {
             if g.reached.get(k).copied().unwrap_or(0) == 0 {
-                vacuous.push(format!("must-reach event never reached: {k}"));
+                if g.exhaustive {
+                    vacuous.push(format!("must-reach event never reached: {k}"));
+                } else {
+                    // a capped run cannot be expected to reach everything: say so, do not fail
+                    eprintln!("note: capped run did not reach must-reach event {k}");
+                }
             }
         }
         let evals = self.evaluations.load(Ordering::Relaxed);
